@@ -12,7 +12,7 @@ pub const VOLS: [f64; 13] = [-60.0, -20.0, -6.0, -0.5, -0.001, 0.0, 0.001, 0.5, 
 
 pub fn run(tier: Tier) -> i32 {
     let rep = Report::new("C16", tier, "model_checking");
-    rep.set_rule("SCOPE: volumes {-60,-20,-6,-0.5,-0.001,0,0.001,0.5,1,2,6,20,60} dB x voices (V0 mel-cepstral, generated mel-cepstral, generated LSP 3- and 2-stream) x short utterances x (default condition + every single further deviation); oracle: every sample = 10^(v/20) x the 0 dB sample (rel 1e-12), get_volume within 1e-9, all other getters unchanged; plus a volume set before load_model (equal to setting it afterwards); plus streaming use: generate_step into pre-filled buffers of 1x/2x/3x fperiod + 1 samples, where the produced frame is scaled and everything else in the buffer equals the 0 dB run; distinct = (voice, other deviation, utterance, volume); non-trivial = v != 0 and non-empty waveform");
+    rep.set_rule("SCOPE: volumes {-60,-20,-6,-0.5,-0.001,0,0.001,0.5,1,2,6,20,60} dB x voices (V0 mel-cepstral, generated mel-cepstral, generated LSP 3- and 2-stream, a generated voice with one very quiet state) x short utterances x (default condition + every single further deviation); oracle: every sample = 10^(v/20) x the 0 dB sample (rel 1e-12), get_volume within 1e-9, all other getters unchanged; plus a volume set before load_model (equal to setting it afterwards); plus streaming use: generate_step into pre-filled buffers of 1x/2x/3x fperiod + 1 samples, where the produced frame is scaled and everything else in the buffer equals the 0 dB run; distinct = (voice, other deviation, utterance, volume); non-trivial = v != 0 and non-empty waveform");
     rep.assume("volume lattice only; comparison skipped on samples that are non-finite in the 0 dB run");
     let corpus = labels::corpus();
     let utts: Vec<Vec<String>> = vec![vec![corpus[41].clone()], corpus[40..43].to_vec(), corpus[0..2].to_vec()];
@@ -24,6 +24,18 @@ pub fn run(tier: Tier) -> i32 {
         GenCfg { stage: 3, order: 5, gv: true, ..GenCfg::default() },
     ] {
         voices.push((cfg.describe(), engine_from_bytes(&cfg.bytes()).expect("generated voice"), cfg.ns, false));
+    }
+    // a voice with one very quiet state (log gain -10: about 4.5e-5 of the others) - at -60 dB its samples are far below
+    // anything audible, and still they are the 0 dB samples times the gain (and the frames after it are unaffected)
+    {
+        let cfg = GenCfg { nstate: 2, gv: false, ..GenCfg::default() };
+        let mut spec = cfg.spec();
+        for (_, _, pdfs) in spec.streams[0].model.trees.iter_mut().take(1) {
+            for pdf in pdfs.iter_mut() {
+                pdf[0] = -10.0;
+            }
+        }
+        voices.push((format!("{} with a quiet first state (c0 = -10)", cfg.describe()), engine_from_bytes(&crate::gen::voice::write(&spec)).expect("generated voice with a quiet state"), cfg.ns, false));
     }
     let worst = Mutex::new(0.0f64);
     let nontriv = AtomicU64::new(0);
